@@ -31,7 +31,13 @@
      one that does) returns the pair (value, ok) where ok is the conjunction of the loops' flags: ok = true iff every
      loop stopped because its condition became false.  A result with ok = false has no meaning (budget exhausted);
    * `a[:n]` is [zslice_to a n] (Python: a negative n counts from the end); a slice is a VALUE (a copy): programs that
-     store through a slice view are rejected by the translator;
+     store into a name bound to a slice (a numpy view) are rejected by the translator;
+   * `set(a)` of an int array is represented by the list [a] itself; the only operation on it is `k in s` / `k not in s`
+     = [zmem k a] / its negation ([existsb (Z.eqb k) a]);
+   * `a[lo:hi]` is [zslice a lo hi] (each bound: negative counts from the end, then clamped to [0, len]; empty when
+     hi <= lo); `x[lo:hi] = e` is [zset_slice x lo hi e]: the segment replaced by the list e when e has exactly the
+     segment's length (numpy raises / broadcasts otherwise: [zset_slice] then returns x unchanged, outside the meaning).
+     The translator accepts `a[lo:hi]` as a value only inside the right-hand side of such a store (evaluated before it);
    * a call of a helper listed as "opaque" is the application of a function PARAMETER of the generated definition:
      the helper is assumed to be a pure function of its arguments that returns a fresh array (the link theorems
      quantify over every such function satisfying their stated hypotheses). *)
@@ -75,9 +81,20 @@ Definition zset {A : Type} (l : list A) (i : Z) (v : A) : list A :=
 Definition imrow (m : list (list Z)) (i : Z) : list Z := znth [] m i.
 Definition imnth (m : list (list Z)) (i j : Z) : Z := znth 0%Z (znth [] m i) j.
 Definition msize {A : Type} (m : list (list A)) : Z := (zlen m * zlen (znth [] m 0))%Z.
+(* `k in s` where s = set(<int array a>): membership in the list of elements (the only operation available on such a set) *)
+Definition zmem (k : Z) (a : list Z) : bool := existsb (Z.eqb k) a.
 (* `a[:n]`: the first n elements; a negative n means len(a) + n (and nothing if that is negative too) *)
 Definition zslice_to {A : Type} (l : list A) (n : Z) : list A :=
   firstn (Z.to_nat (if (n <? 0)%Z then (zlen l + n)%Z else n)) l.
+
+(* `a[lo:hi]` and `x[lo:hi] = e` on 1-d arrays (Python slice bounds: negative = from the end, then clamped) *)
+Definition slice_idx (len i : Z) : nat := Z.to_nat (if (i <? 0)%Z then (len + i)%Z else i).
+Definition zslice {A : Type} (l : list A) (lo hi : Z) : list A :=
+  skipn (slice_idx (zlen l) lo) (firstn (slice_idx (zlen l) hi) l).
+Definition zset_slice {A : Type} (l : list A) (lo hi : Z) (e : list A) : list A :=
+  if Nat.eqb (length e) (length (zslice l lo hi))
+  then firstn (slice_idx (zlen l) lo) l ++ e ++ skipn (slice_idx (zlen l) lo + length e) l
+  else l.
 
 Section Prim.
 Context (N : Num).
